@@ -228,7 +228,7 @@ def markup_chars(T, conv, mode, dev, showpageno=True):
     if conv == "html":
         links = []
         for q in range(1, npages + 1):
-            links += ([G_COMMA] if q > 1 else []) + open_tag(H_A, qattr(B_HREF, [G_HASHMARK, 400 + q])) + [400 + q] + end_tag(H_A)
+            links += ([G_COMMA] if q > 1 else []) + open_tag(H_A, qattr(B_HREF, [G_HASHMARK, 1900000 + q])) + [1900000 + q] + end_tag(H_A)
         out += open_tag(H_DIV, qattr(B_STYLE, hnum(0, H_TOP))) + [G_PAGES] + links + end_tag(H_DIV) + [LF] + end_tag(H_BODY) + end_tag(H_HTML) + [LF]
     else:
         out += [G_HOCRCOMMENT1, LF, G_HOCRCOMMENT2] + end_tag(H_BODY) + end_tag(H_HTML) + [LF]
@@ -243,8 +243,8 @@ class MarkupConcrete(C.Concrete):
     def ch(self, c):
         if c in WORDS:
             return WORDS[c]
-        if 400 < c < 1000:
-            return "%d" % (c - 400)
+        if 1900000 <= c < 2000000:
+            return "%d" % (c - 1900000)
         if c >= 2000000 or c <= -3000000000:
             return self.nums[c]
         return super().ch(c)
@@ -473,7 +473,7 @@ def nospace(s):
 # ------------------------------------------------------------------------------------------------ TagExtractor (TagExtract.tla)
 TAG_DEVS = ["TagPointOpen", "TagPropRaw"]
 TAG_WORDS = {H_DIV: "P", H_SPAN: "Span", H_A: "Artifact", B_ID: "MCID", B_LANG: "Lang", C.E_PAGE: "page", C.A_ID: "id", C.A_BBOX: "bbox",
-             C.A_ROTATE: "rotate", 403: "3"}
+             C.A_ROTATE: "rotate", 1900003: "3"}
 
 
 def tag_chars(prog, dev):
@@ -485,7 +485,7 @@ def tag_chars(prog, dev):
         if op["o"] in ("BMC", "MP"):
             return []
         if not op["pv"]:
-            return qattr(B_ID, [403])
+            return qattr(B_ID, [1900003])
         return qattr(B_LANG, list(op["pv"]) if "TagPropRaw" in dev else C.enc(op["pv"]))
     for op in prog:
         if op["o"] in ("BMC", "BDC"):
